@@ -56,6 +56,7 @@ type replay struct {
 }
 
 type workerJob struct {
+	Seq      []int      `json:"seq,omitempty"` // sequential scenarios to run once each (indices); else an exploration job
 	Scenario int        `json:"scenario"`
 	Bound    int        `json:"bound"`
 	Items    []vrt.Item `json:"items"`
@@ -64,7 +65,25 @@ type workerJob struct {
 }
 
 type workerOut struct {
-	Res vrt.Result `json:"res"`
+	Res vrt.Result     `json:"res"`
+	Seq map[int]seqOut `json:"seq,omitempty"`
+}
+
+type seqOut struct {
+	Res    vrt.Result `json:"res"`
+	ExtraN int64      `json:"extra_n"`
+	Keys   []uint64   `json:"keys"`
+}
+
+func runSequential(sc *Scenario) seqOut {
+	e := explorerFor(sc, 0)
+	e.NoPrune = true
+	e.RunItem(vrt.Item{}) // the default schedule only
+	o := seqOut{Res: e.Res}
+	if sc.Extra != nil {
+		o.ExtraN, o.Keys = sc.Extra()
+	}
+	return o
 }
 
 // DefaultCheck turns scheduler-level failures into verdicts: a panic or deadlock
@@ -267,6 +286,20 @@ func worker(prop string, scs []Scenario, jobFile string) {
 	if err := json.Unmarshal(b, &job); err != nil {
 		evid.EngineError(prop, "worker: %v", err)
 	}
+	if len(job.Seq) > 0 {
+		out := workerOut{Seq: map[int]seqOut{}}
+		for _, idx := range job.Seq {
+			if job.Deadline > 0 && time.Now().After(time.Unix(job.Deadline, 0)) {
+				break
+			}
+			out.Seq[idx] = runSequential(&scs[idx])
+		}
+		ob, _ := json.Marshal(out)
+		if err := os.WriteFile(jobFile+".out", ob, 0o644); err != nil {
+			evid.EngineError(prop, "worker: %v", err)
+		}
+		os.Exit(0)
+	}
 	sc := &scs[job.Scenario]
 	e := explorerFor(sc, job.Bound)
 	e.MaxExec = job.MaxExec
@@ -346,6 +379,26 @@ func parent(prop string, scs []Scenario) {
 	hitCount := map[string]int{}
 	var nSeqSamples int
 	var innerCases, seqExecs int64
+	seqExtraN := map[int]int64{}
+	seqExtraKeys := map[int][]uint64{}
+	seqSkipped := false
+	_ = seqSkipped
+
+	// sequential scenarios (grid points run once under the default schedule) are farmed out to the workers
+	seqDone := map[int]seqOut{}
+	var seqIdx []int
+	for si := range scs {
+		if scs[si].Sequential {
+			seqIdx = append(seqIdx, si)
+		}
+	}
+	if len(seqIdx) > 3 {
+		var err error
+		seqDone, err = runSeqWorkers(prop, seqIdx, evid.Workers(), dl)
+		if err != nil {
+			evid.EngineError(prop, "%v", err)
+		}
+	}
 
 	for si := range scs {
 		sc := &scs[si]
@@ -385,9 +438,24 @@ func parent(prop string, scs []Scenario) {
 			e.MaxExec = sc.MaxExec
 			nw := evid.Workers()
 			var frontier []vrt.Item
+			var extraN int64
+			var extraKeys []uint64
 			if sc.Sequential {
-				e.NoPrune = true
-				e.RunItem(vrt.Item{}) // the default schedule only
+				so, ok := seqDone[si]
+				if !ok {
+					if len(seqIdx) > 3 {
+						r.Capped(fmt.Sprintf("internal deadline before scenario %s", sc.Name))
+						seqSkipped = true
+						break
+					}
+					so = runSequential(sc)
+				}
+				e.Res = so.Res
+				if e.Res.Outcomes == nil {
+					e.Res.Outcomes = map[string]int{}
+				}
+				extraN, extraKeys = so.ExtraN, so.Keys
+				seqExtraN[si], seqExtraKeys[si] = extraN, extraKeys
 			} else {
 				frontier = e.Frontier(nw * 8)
 			}
@@ -419,7 +487,10 @@ func parent(prop string, scs []Scenario) {
 		}
 		r.EvalN(int64(merged.Executions))
 		if sc.Extra != nil {
-			n, keys := sc.Extra()
+			n, keys := seqExtraN[si], seqExtraKeys[si]
+			if !sc.Sequential {
+				n, keys = sc.Extra()
+			}
 			r.EvalN(n)
 			for _, k := range keys {
 				r.DistinctHash(k)
@@ -596,6 +667,63 @@ func runWorkers(prop string, scIdx, bound int, items []vrt.Item, nw int, dl time
 	}
 	wg.Wait()
 	return total, firstErr
+}
+
+func runSeqWorkers(prop string, idx []int, nw int, dl time.Time) (map[int]seqOut, error) {
+	all := map[int]seqOut{}
+	dir, err := os.MkdirTemp(scratch(), "e2seq-")
+	if err != nil {
+		return all, err
+	}
+	defer os.RemoveAll(dir)
+	if nw > len(idx) {
+		nw = len(idx)
+	}
+	shares := make([][]int, nw)
+	for i, x := range idx {
+		shares[i%nw] = append(shares[i%nw], x)
+	}
+	var wg sync.WaitGroup
+	var mu sync.Mutex
+	var firstErr error
+	for w := 0; w < nw; w++ {
+		wg.Add(1)
+		go func(w int) {
+			defer wg.Done()
+			jf := filepath.Join(dir, fmt.Sprintf("seq-%d.json", w))
+			jb, _ := json.Marshal(workerJob{Seq: shares[w], Deadline: dl.Unix()})
+			os.WriteFile(jf, jb, 0o644)
+			cmd := exec.Command(os.Args[0], os.Args[1:]...)
+			cmd.Env = append(os.Environ(), "VERIF_E2_JOB="+jf, "GOMAXPROCS=1")
+			var stderr strings.Builder
+			cmd.Stderr = &stderr
+			cmd.Stdout = &stderr
+			runErr := cmd.Run()
+			mu.Lock()
+			defer mu.Unlock()
+			ob, rerr := os.ReadFile(jf + ".out")
+			if runErr != nil || rerr != nil {
+				if firstErr == nil {
+					tail := stderr.String()
+					if len(tail) > 3000 {
+						tail = tail[len(tail)-3000:]
+					}
+					firstErr = fmt.Errorf("sequential worker %d failed: %v %v\n%s", w, runErr, rerr, tail)
+				}
+				return
+			}
+			var wo workerOut
+			if err := json.Unmarshal(ob, &wo); err != nil {
+				firstErr = err
+				return
+			}
+			for k, v := range wo.Seq {
+				all[k] = v
+			}
+		}(w)
+	}
+	wg.Wait()
+	return all, firstErr
 }
 
 func diffTrace(a, b []string) string {
